@@ -20,7 +20,10 @@ using namespace QtLogger;
 #ifndef VF_PROP
 #define VF_PROP 5
 #endif
-#define MAXREC VF_OPS
+#ifndef VF_PRE
+#define VF_PRE 0           // records that exist before the harness' first write (h_fs_step)
+#endif
+#define MAXREC (VF_PRE + VF_OPS)
 #define P(n) (VF_PROP == (n))
 
 static const QMessageLogContext g_ctx("f.c", 1, "fn", "c");
@@ -231,6 +234,151 @@ extern "C" void h_fs_hist()
         env_after_op();
         ++nwritten;
         check_directory(nwritten);
+    }
+    vf_witness();
+}
+
+// ------------------------------------------------------------------------------------------------------------------
+// h_fs_step: the INDUCTIVE form of the file-sink properties.  Instead of a history from the empty directory, the directory
+// the sink finds is arbitrary within a menu: the active file a.l and up to three rotated files with concrete names (menu
+// VF_MENU, listed in rotation order = the order in which they were produced), each present or not, each holding a symbolic
+// number of whole records, with symbolic modification times that are non-decreasing in rotation order (TIES INCLUDED) --
+// what earlier runs of the sink can leave behind -- plus foreign files that merely look similar.  A new sink is started on
+// that directory (a restart) and VF_OPS records are written with clock ticks / day changes; after every write the directory
+// is decoded and the active property's assertions are evaluated.  Assumed about the pre-state: exactly what the property
+// asserts about the post-state (so that the step composes to histories of any length).
+#ifndef VF_MENU
+#define VF_MENU 0
+#endif
+#ifndef VF_ADAY
+#define VF_ADAY 1
+#endif
+#ifndef VF_DDAY
+#define VF_DDAY 0          // bit k: the day changes before write k
+#endif
+struct MenuEntry { const char *name; int day; };
+#if VF_MENU == 0
+static const MenuEntry MENU[3] = { { "a.2024-05-10.1.l", 0 }, { "a.2024-05-10.2.l", 0 }, { "a.2024-05-11.1.l", 1 } };
+#elif VF_MENU == 1
+static const MenuEntry MENU[3] = { { "a.2024-05-10.8.l", 0 }, { "a.2024-05-10.9.l", 0 }, { "a.2024-05-10.10.l", 0 } };
+#elif VF_MENU == 2
+static const MenuEntry MENU[3] = { { "a.2024-05-10.1.l", 0 }, { "a.2024-05-11.1.l", 1 }, { "a.2024-05-11.2.l", 1 } };
+#endif
+static const char *const FOREIGN[2] = { "a.2024-05-10.1.l.bak", "b.2024-05-10.1.l" };
+
+static QByteArray rec_bytes(int id, int size)
+{
+    QByteArray b; b = QByteArray("");
+    for (int i = 0; i < VF_SMAX; ++i) if (i < size) b.append(char('A' + id));
+    b.append('\n');
+    return b;
+}
+
+// debugging aid: -DVF_CUT=n ends the harness early at cut point n (used to locate what is expensive for the solver)
+#ifdef VF_CUT
+#define VF_CUT_AT(n) do { if (VF_CUT == (n)) { vf_witness(); return; } } while (0)
+#else
+#define VF_CUT_AT(n) do { } while (0)
+#endif
+extern "C" void h_fs_step()
+{
+    env_init();
+    g_L = vf_range(0, VF_LMAX); g_N = vf_range(-1, 4);
+    g_startup = vf_nondet_bool(); g_daily = vf_nondet_bool(); g_compress = false;
+#ifdef VF_STARTUP
+    g_startup = VF_STARTUP;
+#endif
+#ifdef VF_DAILY
+    g_daily = VF_DAILY;
+#endif
+#ifdef VF_COMPRESS
+    g_compress = VF_COMPRESS;
+#endif
+    // ---- pre-state.  Days are CONCRETE per job (VF_ADAY: day of the active file's last write, VF_DDAY: day change before
+    // each write; rotated files were last written on the day in their name), so that date strings and the expressions built
+    // from them are concrete text; everything else (presence, record counts and sizes, times within the day, ties) is symbolic.
+    int nrec = 0; int lastDay = 0, lastMs = 0; int nfiles = 0;
+    for (int f = 0; f < 4; ++f) {
+        const bool active = f == 3;
+#ifdef VF_NOACTIVE
+        bool exists = active ? false : vf_nondet_bool();
+#else
+        bool exists = active ? true : vf_nondet_bool();    // a sink that ran before leaves an active file (possibly empty); VF_NOACTIVE jobs: none
+#endif
+        int cnt = vf_range(0, VF_PRE);                 // records in this file
+        const int fday = active ? VF_ADAY : MENU[f < 3 ? f : 0].day;
+        int fms = vf_range(0, 2);                      // modification time within the day
+        int sz0 = vf_range(1, VF_SMAX), sz1 = vf_range(1, VF_SMAX);
+        if (!exists) cnt = 0;
+        QByteArray content; content = QByteArray("");
+        if (exists) {
+            vf_assume(active || cnt >= 1);               // only non-empty files are ever rotated
+            vf_assume(cnt <= 2 && nrec + cnt <= VF_PRE);
+            vf_assume(fday > lastDay || (fday == lastDay && fms >= lastMs));      // times follow rotation order, ties allowed
+            for (int k = 0; k < 2; ++k) if (k < cnt) {
+                int sz = k == 0 ? sz0 : sz1;
+                RecInfo &ri = g_rec[nrec]; ri.size = sz; ri.mb = false; ri.day = fday; ri.written = true;
+                content.append(rec_bytes(nrec, sz));
+                ++nrec;
+            }
+            if (g_L > 0 && g_N != 1) vf_assume(content.size() <= g_L || cnt == 1);     // C07 pre-state
+            lastDay = fday; lastMs = fms; ++nfiles;
+        }
+        env_put_file_slot(active ? 0 : f + 1, exists, QString::fromLatin1(active ? BASE : MENU[f < 3 ? f : 0].name), content, fday, fms);
+    }
+    if (g_N >= 2) vf_assume(nfiles <= g_N);                 // C06 pre-state: the retention bound holds before the write
+    bool foreign[2] = { false, false };
+#ifdef VF_FOREIGN
+    for (int k = 0; k < 2; ++k) { foreign[k] = vf_nondet_bool(); env_put_file_slot(4 + k, foreign[k], QString::fromLatin1(FOREIGN[k]), QByteArray("x\n"), 0, 0); }
+#endif
+    const int npre = nrec;
+    VF_CUT_AT(1);
+    // ---- a new sink on that directory, VF_OPS writes
+    int day = VF_ADAY, ms = lastMs;          // "now": not before the active file's (or any file's) last write
+    vf_assume(lastDay <= VF_ADAY);
+    if (lastDay < VF_ADAY) ms = 0;
+    env_clock(day, ms);
+    make_sink();
+    VF_CUT_AT(2);
+    int nwritten = npre;
+    for (int op = 0; op < VF_OPS; ++op) {
+        int tick = vf_range(0, 2); const int dday = (VF_DDAY >> op) & 1;
+        ms += tick; day += dday; if (dday) ms = 0;
+        env_clock(day, ms);
+        int size = vf_range(1, VF_SMAX);
+        RecInfo &ri = g_rec[nwritten];
+        ri.size = size; ri.mb = false; ri.day = day; ri.written = true;
+        QString text = QStringLiteral("");
+        for (int i = 0; i < VF_SMAX; ++i) if (i < size) text.append(QChar(ushort('A' + nwritten)));
+        LogMessage msg(QtInfoMsg, g_ctx, text);
+#ifdef VF_PROBE
+        // debugging aid: run one private piece of the sink on the symbolic pre-state instead of send() (cost localisation)
+        {
+            auto *d = g_sink->d.data();
+            d->init();
+            if (VF_PROBE == 2) { int i = d->findNextIndexForDate(d->m_currentLogDate); vf_assert(i >= 1, "probe"); }
+            if (VF_PROBE == 3) { QString n = d->generateRotatedFileName(d->m_currentLogDate, vf_range(1, 11)); vf_assert(n.size() > 3, "probe"); }
+            if (VF_PROBE == 4) { QStringList l = d->findRotatedFiles(); vf_assert(l.size() <= 3, "probe"); }
+            if (VF_PROBE == 5) d->removeOldFiles();
+            if (VF_PROBE == 6) d->rotate();
+            if (VF_PROBE == 7) d->rotateIfNeeded(msg);
+            if (VF_PROBE == 8) g_sink->FileSink::send(msg);
+            if (VF_PROBE == 12) { vf_assert(d->m_currentLogDate.m_day == VF_ADAY, "dayconst"); auto fi = QFileInfo(g_sink->file()->fileName()); vf_assert(fi.exists(), "existsconst"); vf_assert(fi.lastModified().m_day == VF_ADAY, "lmconst"); vf_assert(qm_fs[0].mday == VF_ADAY, "slotconst"); vf_assert(QDate::currentDate().m_day == VF_ADAY, "clockconst"); }
+            if (VF_PROBE == 9) { auto fi = QFileInfo(g_sink->file()->fileName()); QString e = QRegularExpression::escape(fi.completeBaseName()); vf_assert(e == QStringLiteral("a"), "probe"); }
+            if (VF_PROBE == 10) { QString e = QRegularExpression::escape(d->m_currentLogDate.toString(QStringLiteral("yyyy-MM-dd"))); vf_assert(e.size() == 12, "probe"); }
+            if (VF_PROBE == 11) { QString e = QRegularExpression::escape(QDate::currentDate().toString(QStringLiteral("yyyy-MM-dd"))); vf_assert(e.size() == 12, "probe"); }
+            vf_witness(); return;
+        }
+#endif
+        g_sink->send(msg);
+        VF_CUT_AT(3);
+        g_sink->flush();
+        env_after_op();
+        ++nwritten;
+        check_directory(nwritten);
+        VF_CUT_AT(4);
+        for (int k = 0; k < 2; ++k) if (foreign[k] && P(6))
+            vf_assert(env_read(QString::fromLatin1(FOREIGN[k])) == QByteArray("x\n"), "files that do not follow the rotated-name scheme are never touched");
     }
     vf_witness();
 }
